@@ -24,20 +24,24 @@ CONTENT_WHYS = ("equal-but-content-differs", "meta-but-content-differs")
 def run(ctx):
     T = ctx.thorough
     # ------------------------------------------------------------------ M
-    d = {"MaxSteps": ctx.pick(1, 2), "Strict": "FALSE", "InitAll": "FALSE"}
+    d = {"MaxSteps": ctx.pick(1, 2), "Strict": "FALSE", "InitAll": "FALSE", "Fixed": "FALSE"}
     m = ctx.model_check("Incremental", "Incremental_mc.cfg", timeout=14400, defines=d)
     if T:
         ctx.model_check("Incremental", "Incremental_mc.cfg", timeout=14400,
-                        defines={"MaxSteps": 1, "Strict": "FALSE", "InitAll": "TRUE"})
+                        defines={"MaxSteps": 1, "Strict": "FALSE", "InitAll": "TRUE", "Fixed": "FALSE"})
     model_content = set(m.printed("CONTENT_FIELDS")[0])
     model_unhashed = set(m.printed("UNHASHED_CONTENT_FIELDS")[0])
     # the strict forms must fail: the named deviations are reachable in the model
     for cfg, inv in (("Incremental_strict_skip.cfg", "SkipSound"), ("Incremental_strict_meta.cfg", "MetaApplied")):
         strict = ctx.tlc("Incremental", cfg, timeout=14400, count=False,
-                         defines={"MaxSteps": 1, "Strict": "TRUE", "InitAll": "FALSE"})
+                         defines={"MaxSteps": 1, "Strict": "TRUE", "InitAll": "FALSE", "Fixed": "FALSE"})
         if strict.invariant != inv:
             raise vk.Inconclusive("the strict model does not violate %s (named deviation unreachable, vacuous): %s" % (
                 inv, strict.log))
+    # ... and hold with the proposed fix (hash covers every derived content-affecting option,
+    # Metadata merged like RawConfig)
+    ctx.model_check("Incremental", "Incremental_mc.cfg", timeout=14400, count=False,
+                    defines={"MaxSteps": 1, "Strict": "TRUE", "InitAll": "TRUE" if T else "FALSE", "Fixed": "TRUE"})
     ctx.notes.append("model-derived content-affecting option fields: %s; not covered by the option hash: %s" % (
         sorted(model_content), sorted(model_unhashed)))
 
